@@ -88,7 +88,10 @@ LexFrom(d, i, toks, dc) ==
             (IF FindStarSlash(d, i + 2) = 0 THEN Fail ELSE LexFrom(d, FindStarSlash(d, i + 2) + 2, toks, dc))
        ELSE IF PunctKind(b) # "" THEN Tok(PunctKind(b), i + 1)
        ELSE IF b = DQ THEN (IF QuotedEnd(d, i + 1) = 0 THEN Fail ELSE Tok("str", QuotedEnd(d, i + 1) + 1))
-       ELSE IF MultiLineDot(d, i) # 0 THEN Tok("ml", MultiLineDot(d, i) + 1)
+       ELSE IF MultiLineDot(d, i) # 0 THEN
+            \* a lone CR inside a line of the text is outside the grammar (octet-not-crlf): flagged, not judged
+            LexFrom(d, MultiLineDot(d, i) + 1, Append(toks, <<"ml", i, MultiLineDot(d, i) + 1 - i>>),
+                    dc \/ \E k \in i..MultiLineDot(d, i) : d[k] = CR /\ At(d, k + 1) # LF)
        ELSE IF IsAlpha(b) THEN Tok("id", SkipIdCont(d, i + 1))
        ELSE IF b = COLON /\ IsAlpha(At(d, i + 1)) THEN Tok("tag", SkipIdCont(d, i + 2))
        ELSE IF IsDigit(b) THEN
